@@ -55,6 +55,13 @@ var injections = []struct{ pkg, recv, fn, code string }{
 	{"github.com/mit-pdos/go-journal/alloc", "Alloc", "AllocNum", `if __simrt.FaultPoint("alloc") { return 0 }; `},
 	{"github.com/mit-pdos/go-journal/lockmap", "LockMap", "Acquire", `__simrt.LockEvent(0, flataddr); defer __simrt.LockEvent(1, flataddr); `},
 	{"github.com/mit-pdos/go-journal/lockmap", "LockMap", "Release", `__simrt.LockEvent(2, flataddr); `},
+	// reach probes (rare branches the workloads are meant to hit)
+	{"github.com/mit-pdos/go-nfsd/nfs", "", "lookupOrdered", `__simrt.Probe("probe_abort_and_relock"); `},
+	{"github.com/mit-pdos/go-nfsd/shrinker", "ShrinkerSt", "DoShrink", `__simrt.Probe("probe_doshrink"); `},
+	{"github.com/mit-pdos/go-nfsd/cache", "Cache", "evict", `__simrt.Probe("probe_icache_eviction"); `},
+	{"github.com/mit-pdos/go-journal/wal", "sliding", "update", `__simrt.Probe("probe_log_absorption"); `},
+	{"github.com/mit-pdos/go-nfsd/fstxn", "FsTxn", "Abort", `__simrt.Probe("probe_txn_abort"); `},
+	{"github.com/mit-pdos/go-nfsd/inode", "Inode", "Shrink", `__simrt.Probe("probe_inode_shrink"); `},
 }
 
 var stats = map[string]int{}
@@ -336,15 +343,24 @@ func rewritePkg(p *packages.Package) {
 			}
 			for _, decl := range file.Decls {
 				fd, ok := decl.(*ast.FuncDecl)
-				if !ok || fd.Name.Name != in.fn || fd.Recv == nil || fd.Body == nil {
+				if !ok || fd.Name.Name != in.fn || fd.Body == nil {
 					continue
 				}
-				rt := fd.Recv.List[0].Type
-				if st, ok := rt.(*ast.StarExpr); ok {
-					rt = st.X
-				}
-				if id, ok := rt.(*ast.Ident); !ok || id.Name != in.recv {
-					continue
+				if in.recv == "" {
+					if fd.Recv != nil {
+						continue
+					}
+				} else {
+					if fd.Recv == nil {
+						continue
+					}
+					rt := fd.Recv.List[0].Type
+					if st, ok := rt.(*ast.StarExpr); ok {
+						rt = st.X
+					}
+					if id, ok := rt.(*ast.Ident); !ok || id.Name != in.recv {
+						continue
+					}
 				}
 				code := in.code
 				if strings.Contains(code, "flataddr") {
